@@ -20,7 +20,8 @@ RULE = ('(a) unit level: the real DynamicUniverse probed at entry-1min, entry-1u
         'keep yielding exactly its configured list, outsiders get weight 0, are sold and never re-ordered. At every rebalance the recorded allocation row, '
         'orders, holdings and every fill are checked against the entry map (entry <= t inclusive; member from the first '
         'such rebalance onward). Non-trivial: a session in which some asset enters strictly inside the run; distinct = '
-        'config signature + entry map.')
+        'config signature + entry map.'
+        ' Optimisers are also called repeatedly on the same object with the same dict changed in place, and with all-integer weights.')
 ASSUMPTIONS = ['UTC timestamps']
 
 
